@@ -615,3 +615,23 @@ Proof.
   destruct (N.of_nat (length l) * MAX_LEN_FACTOR <=? USIZE_MAX) eqn:E; [|apply N.leb_gt in E; lia].
   unfold MAX_LEN_FACTOR in *. lia.
 Qed.
+
+(* after enter() on n characters the invariant holds, with max_len = max (64 n) 16384 *)
+Lemma init_J_and_budget l lvl fl : N.of_nat (length l) * MAX_LEN_FACTOR <= USIZE_MAX ->
+  J (init_buf l lvl fl) /\ max_len (init_buf l lvl fl) = N.max (N.of_nat (length l) * 64) 16384.
+Proof.
+  intros H. split; [apply J_init, H|].
+  unfold init_buf, enter_max_len. cbn. destruct (N.of_nat (length l) * MAX_LEN_FACTOR <=? USIZE_MAX) eqn:E; [reflexivity|].
+  apply N.leb_gt in E. lia.
+Qed.
+
+(* whatever sequence of buffer operations runs on a buffer of n characters, a completed (in-place)
+   buffer holds at most max(64 n, 16384) glyphs *)
+Lemma run_output_length l lvl fl ops b' :
+  N.of_nat (length l) * MAX_LEN_FACTOR <= USIZE_MAX ->
+  run (init_buf l lvl fl) ops = Ok (Some b') -> out_mode b' = false -> max_len b' = max_len (init_buf l lvl fl) ->
+  N.of_nat (length (pre b' ++ rest b')) <= N.max (N.of_nat (length l) * 64) 16384.
+Proof.
+  intros H E Ho Hm. destruct (init_J_and_budget l lvl fl H) as [HJ Hmax].
+  pose proof (run_J ops _ _ E HJ) as HJ'. unfold J in HJ'. rewrite Ho in HJ'. rewrite app_length, Hm, Hmax in *. exact HJ'.
+Qed.
